@@ -564,6 +564,33 @@ theorem dotted_refused_iff (a b c d : Nat) (ha : a < 256) (hb : b < 256) (hc : c
   have := refused_iff_membership_parsed (dotted a b c d) _ m bg bp hp
   simpa [effective, memberCls] using this
 
+/-- the hexadecimal IPv4-mapped form `::ffff:xxxx:yyyy` (what `str(IPv6Address)` prints for a mapped
+    address), with or without a zone, is decided like the dotted quad — no parse hypotheses -/
+theorem hex_mapped_form_equal_plain (a b c d : Nat) (ha : a < 256) (hb : b < 256) (hc : c < 256)
+    (hd : d < 256) (z : Text) (hz : (0x25 : UInt8) ∉ z) (m : Mode) (bg bp : Bool) :
+    verdict (mappedHexText (a * 256 + b) (c * 256 + d)) m bg bp = verdict (dotted a b c d) m bg bp ∧
+    verdict (mappedHexText (a * 256 + b) (c * 256 + d) ++ 0x25 :: z) m bg bp = verdict (dotted a b c d) m bg bp := by
+  have hx : a * 256 + b < 65536 := by omega
+  have hy : c * 256 + d < 65536 := by omega
+  have hp6 := parseIp_mappedHex (a * 256 + b) (c * 256 + d) hx hy
+  have e : (a * 256 + b) * 65536 + (c * 256 + d) = ((a * 256 + b) * 256 + c) * 256 + d := by omega
+  rw [e] at hp6
+  have hno : (0x25 : UInt8) ∉ mappedHexText (a * 256 + b) (c * 256 + d) := by
+    intro hm
+    simp only [mappedHexText, List.mem_append, List.mem_cons] at hm
+    rcases hm with hm | hm | hm | hm
+    · revert hm; decide
+    · exact (renderHextet_chars _ hx _ hm).2.2.2 rfl
+    · revert hm; decide
+    · exact (renderHextet_chars _ hy _ hm).2.2.2 rfl
+  have := mapped_scoped_equal_plain (dotted a b c d) (mappedHexText (a * 256 + b) (c * 256 + d)) z
+    (((a * 256 + b) * 256 + c) * 256 + d) none m bg bp (by omega)
+    (parseIp_dotted a b c d ha hb hc hd) hp6
+    (dotted_no a b c d ha hb hc hd 0x25 (Or.inr (Or.inr rfl))) hno hz
+  exact ⟨this.2.1, this.2.2⟩
+
+example : parseIp (mappedHexText 2049 515) = some (Addr.v6 (0xFFFF * 4294967296 + 134283779) none) := by decide +kernel
+
 -- 10.1.2.3 in all four text forms under block_private, computed; and the read-back on a concrete address
 example : parseIp (dotted 10 1 2 3) = some (Addr.v4 167838211) := by decide +kernel
 example : parseIp (mappedText 10 1 2 3) = some (Addr.v6 (0xFFFF * 4294967296 + 167838211) none) := by decide +kernel
